@@ -223,6 +223,11 @@ def _byte_valued(name: str, fn) -> bool:
     a byte value, hence >= 0"""
     seen = False
     for st in ast.walk(fn):
+        if isinstance(st, ast.NamedExpr) and isinstance(st.target, ast.Name) and st.target.id == name:
+            seen = True
+            if not (isinstance(st.value, ast.Subscript) and not isinstance(st.value.slice, ast.Slice)):
+                return False
+            continue
         if not isinstance(st, ast.Assign) or len(st.targets) != 1:
             continue
         tg, val = st.targets[0], st.value
@@ -259,10 +264,78 @@ def _parser_parameter(name: str, fn, tree) -> bool:
                     and a.body.func.attr in ("parse", "_unpack") and a.body.args and isinstance(a.body.args[0], ast.Name) \
                     and a.body.args[0].id == a.args.args[0].arg:
                 a = a.body.func  # lambda b: X.parse(b, ...)
+            if isinstance(a, ast.Call) and ast.unparse(a.func).split(".")[-1] == "partial" and a.args and isinstance(a.args[0], ast.Attribute):
+                a = a.args[0]  # functools.partial(X.parse, n=..): still X.parse applied to the buffer first
             if not (isinstance(a, ast.Attribute) and a.attr in ("parse", "_unpack")):
                 return False
             sites += 1
     return sites >= 1
+
+
+def _linear(node, env):
+    """AST integer expression -> ({name: coeff}, const) over +, with names substituted from env; None if not of that form"""
+    if isinstance(node, ast.Constant) and isinstance(node.value, int) and not isinstance(node.value, bool):
+        return {}, node.value
+    if isinstance(node, ast.Name):
+        if node.id in env:
+            return env[node.id]
+        return {node.id: 1}, 0
+    if isinstance(node, ast.BinOp) and isinstance(node.op, ast.Add):
+        a, b = _linear(node.left, env), _linear(node.right, env)
+        if a is None or b is None:
+            return None
+        d = dict(a[0])
+        for k, v in b[0].items():
+            d[k] = d.get(k, 0) + v
+        return d, a[1] + b[1]
+    if isinstance(node, ast.Call) and isinstance(node.func, ast.Name) and node.func.id == "len" and len(node.args) == 1:
+        return {"len(" + ast.unparse(node.args[0]) + ")": 1}, 0
+    return None
+
+
+def _offset_advances(loop: ast.While, fn):
+    """decoding by a running offset: some local P indexes a buffer (B[P]) in the loop test or on the body's spine, and the
+    straight-line spine of the body rebinds P to P + k with k >= 1 (k: constants, byte values, lengths - all >= 0, the
+    constant part >= 1).  Then P grows on every iteration and B[P] past the end raises IndexError: the loop ends."""
+    if fn is None:
+        return None
+    indexed = set()
+    for n in [loop.test] + [x for st in loop.body for x in ast.walk(st)]:
+        for x in ast.walk(n):
+            if isinstance(x, ast.Subscript) and not isinstance(x.slice, ast.Slice) and isinstance(x.slice, ast.Name):
+                indexed.add(x.slice.id)
+    env = {}
+    for st in loop.body:
+        if any(isinstance(x, (ast.Continue,)) for x in ast.walk(st)):
+            return None
+        tg, val = None, None
+        if isinstance(st, ast.Assign) and len(st.targets) == 1 and isinstance(st.targets[0], ast.Name):
+            tg, val = st.targets[0].id, st.value
+        elif isinstance(st, ast.AugAssign) and isinstance(st.op, ast.Add) and isinstance(st.target, ast.Name):
+            tg, val = st.target.id, ast.BinOp(left=ast.Name(id=st.target.id, ctx=ast.Load()), op=ast.Add(), right=st.value)
+        elif any(isinstance(x, (ast.Assign, ast.AugAssign, ast.NamedExpr)) and any(
+                isinstance(y, ast.Name) and isinstance(y.ctx, ast.Store) and y.id in indexed for y in ast.walk(x)) for x in ast.walk(st)):
+            return None  # the offset is (also) assigned inside a nested statement
+        if tg is None:
+            continue
+        lin = _linear(val, env)
+        if lin is None:
+            env.pop(tg, None)
+            if tg in indexed:
+                return None
+            continue
+        env[tg] = lin
+    for p_ in sorted(indexed):
+        if p_ not in env:
+            continue
+        coeffs, c0 = env[p_]
+        if coeffs.get(p_) != 1 or c0 < 1:
+            continue
+        others = {k: v for k, v in coeffs.items() if k != p_}
+        if all(v > 0 and (k.startswith("len(") or _byte_valued(k, fn)) for k, v in others.items()):
+            plus = " + ".join([str(c0)] + sorted(others))
+            return f"the offset `{p_}` grows by {plus} >= {c0} on every iteration and indexing the buffer past its end raises IndexError"
+    return None
 
 
 def _consumes(loop: ast.While, fn=None, tree=None):
@@ -325,6 +398,9 @@ def _consumes(loop: ast.While, fn=None, tree=None):
                         and isinstance(tst.ops[0], (ast.NotEq, ast.Gt)) and isinstance(tst.comparators[0], ast.Constant) and tst.comparators[0].value == 0)):
                     return True, f"`{t_.id}` loses `{lo.id}` >= 1 byte(s) per iteration (the loop runs only while {lo.id} is non-zero)"
                 best = t_.id
+    adv = _offset_advances(loop, fn)
+    if adv is not None:
+        return True, adv
     if isinstance(loop.test, ast.Constant) and loop.test.value:
         return False, "`while True` in a decoder"
     return False, "no buffer is strictly shortened on every iteration: a crafted input could make decoding loop forever"
